@@ -29,6 +29,14 @@ def check(repo: Repo, rep: Report) -> None:
     rep.rule("RP3-trim-bounds", "trim drops from the front iff len > buffer_size / age > window; None tests are identity tests", floor=4)
     cls = repo.fn(R, "ReplaySubject")
     sub = repo.fn(R, "ReplaySubject._subscribe_core")
+    so_defs = [s for s in sites(sub) if isinstance(s.node, ast.Assign) and isinstance(s.node.value, ast.Call)
+               and call_name(s.node.value) == "ScheduledObserver" and isinstance(s.node.targets[0], ast.Name)]
+    rep.require(len(so_defs) == 1, "ScheduledObserver wrapper in ReplaySubject._subscribe_core")
+    SO = u(so_defs[0].node.targets[0])
+    loop_vars = {u(s.node.target) for s in sites(sub) if isinstance(s.node, ast.For) and u(s.node.iter) == "self.queue"}
+    ITEM = next(iter(loop_vars), "item")
+    sub_defs = [u(s.node.targets[0]) for s in sites(sub) if isinstance(s.node, ast.Assign) and isinstance(s.node.value, ast.Call)
+                and call_name(s.node.value) == "RemovableDisposable"]
 
     def ev(n: ast.AST) -> Optional[str]:
         if isinstance(n, ast.Call):
@@ -38,14 +46,14 @@ def check(repo: Repo, rep: Report) -> None:
             if d == "self._trim":
                 return "TRIM"
             if d == "self.observers.append":
-                return "APPEND:" + u(n.args[0])
-            if d == "so.on_next":
-                return "NEXT:" + u(n.args[0])
-            if d == "so.on_error":
+                return "APPEND:" + ("SO" if u(n.args[0]) == SO else u(n.args[0]))
+            if d == f"{SO}.on_next":
+                return "NEXT:" + u(n.args[0]).replace(ITEM + ".", "item.")
+            if d == f"{SO}.on_error":
                 return "ERR:" + u(n.args[0])
-            if d == "so.on_completed":
+            if d == f"{SO}.on_completed":
                 return "COMPL"
-            if d == "so.ensure_active":
+            if d == f"{SO}.ensure_active":
                 return "ACTIVATE"
         if isinstance(n, ast.For):
             return "LOOP:" + u(n.iter)
@@ -59,7 +67,7 @@ def check(repo: Repo, rep: Report) -> None:
         base = [x.split(":")[0] for x in k]
         desc = f"path[{' ; '.join(f'{t}={v}' for t, v in p.decisions)}] events={k}"
         want_prefix = ["CHECK", "TRIM", "APPEND"]
-        ok = base[:3] == want_prefix and k[2] == "APPEND:so"
+        ok = base[:3] == want_prefix and k[2] == "APPEND:SO"
         rest = [x for x in k[3:]]
         # optional replay loop (0 or 1 iteration in the path model), then terminal, then ACTIVATE
         loop_ok = True
@@ -76,7 +84,7 @@ def check(repo: Repo, rep: Report) -> None:
             want = ["COMPL", "ACTIVATE"]
         else:
             want = ["ACTIVATE"]
-        ok = ok and loop_ok and term == want and SC.ret_kind(p) in ("var:subscription", "RemovableDisposable")
+        ok = ok and loop_ok and term == want and SC.ret_kind(p) in ["RemovableDisposable"] + [f"var:{x}" for x in sub_defs]
         rep.ob("RP1-subscribe-order", sub, desc, ok,
                "a path through ReplaySubject._subscribe_core is not: check_disposed, trim, register, replay retained values in "
                "queue order, replay the terminal notification if any, then activate — a new subscriber would see expired "
@@ -87,14 +95,12 @@ def check(repo: Repo, rep: Report) -> None:
     rep.ob("RP1-subscribe-order", sub, "replay iterates self.queue front to back under the lock", ok,
            "the replay does not iterate the retained queue in order under the lock (reversed / copied outside the lock)")
     inlock = [s for s in sites(sub) if isinstance(s.node, ast.Call) and dotted(s.node.func) in
-              ("self.check_disposed", "self._trim", "self.observers.append", "so.on_next", "so.on_error", "so.on_completed")]
-    act = [s for s in sites(sub) if isinstance(s.node, ast.Call) and dotted(s.node.func) == "so.ensure_active"]
+              ("self.check_disposed", "self._trim", "self.observers.append", f"{SO}.on_next", f"{SO}.on_error", f"{SO}.on_completed")]
+    act = [s for s in sites(sub) if isinstance(s.node, ast.Call) and dotted(s.node.func) == f"{SO}.ensure_active"]
     ok = all("self.lock" in s.ctx.locks for s in inlock) and bool(act) and all("self.lock" not in s.ctx.locks for s in act)
     rep.ob("RP1-subscribe-order", sub, "registration and replay in one locked region; activation after it", ok,
            "registration and replay are not atomic with respect to concurrent on_next (values duplicated or lost for the new subscriber)")
-    so_def = [s for s in sites(sub) if isinstance(s.node, ast.Assign) and u(s.node.targets[0]) == "so"
-              and isinstance(s.node.value, ast.Call) and call_name(s.node.value) == "ScheduledObserver"
-              and [u(a) for a in s.node.value.args] == ["self.scheduler", sub.params[1]]]
+    so_def = [s for s in so_defs if [u(a) for a in s.node.value.args] == ["self.scheduler", sub.params[1]]]
     rep.ob("RP1-subscribe-order", sub, "so = ScheduledObserver(self.scheduler, observer)", bool(so_def),
            "the subscriber is not wrapped in a ScheduledObserver on the subject's scheduler")
     # cores
@@ -163,5 +169,5 @@ def check(repo: Repo, rep: Report) -> None:
            "unsubscribing does not stop and remove exactly this subscriber's scheduled observer")
     rep.ob("B3-subscribe-branches", sub, "returns RemovableDisposable(self, so)", any(
         isinstance(s.node, ast.Assign) and isinstance(s.node.value, ast.Call) and call_name(s.node.value) == "RemovableDisposable"
-        and [u(a) for a in s.node.value.args] == ["self", "so"] for s in sites(sub)),
+        and [u(a) for a in s.node.value.args] == ["self", SO] for s in sites(sub)),
         "the returned subscription is not tied to this subscriber's scheduled observer")
